@@ -8,3 +8,4 @@ import Zeno.Props.C14
 import Zeno.Props.C09
 import Zeno.Props.C15
 import Zeno.Props.C04
+import Zeno.Props.C05
